@@ -319,7 +319,7 @@ def reset_contract(h):
     h.oblige("the connect attempt is scheduled after the disconnect completed", 0 <= di < ci)
 
 
-@oset("socket.close", ["C15"], [F_CLOSE])
+@oset("socket.close", ["C15", "C16"], [F_CLOSE])
 def close_contract(h):
     if not h.symbolic:
         return
